@@ -204,7 +204,9 @@ def reservoir_bfs(acc, tier, i, n):
 
 # ---- (b) counting ---------------------------------------------------------------------------------
 
-ROUTES = ['ok', 'redir', 'raise403', 'ret404', 'boom', 'nb', 'catch', 'nf', 'mna', 'reroute']
+ROUTES = ['ok', 'redir', 'raise403', 'ret404', 'boom', 'nb', 'catch', 'nf', 'mna', 'reroute', 'raise422', 'inner-ok']
+# raise422: an HTTP error raised with an explicit code= ; inner-ok: a route of an embedded application that brought
+# its own StatsMiddleware instance (merged away: the serving application's instance counts)
 STEPS = ROUTES + ['read', 'reset', 'other-app', 'other-reset', 'swap-handler', 'late-add']
 # swap-handler: the live application gets a new error handler; late-add: a route is added to the live application.
 # Neither is a request: the counts must be unaffected.
@@ -246,8 +248,13 @@ class StatsWorld(object):
         def reroute():
             from clastic.application import RerouteWSGI
             raise RerouteWSGI(target)
+        def raise422():
+            from clastic.errors import BadRequest
+            raise BadRequest('unprocessable', code=422)
+        inner = Application([('/ok', ok)], middlewares=[StatsMiddleware()])
         mws = [StatsMiddleware()]
-        self.app = Application([('/ok', ok), ('/redir', redir), ('/raise403', raise403), ('/ret404', ret404),
+        self.app = Application([('/raise422', raise422), ('/inner', inner),
+                                ('/ok', ok), ('/redir', redir), ('/raise403', raise403), ('/ret404', ret404),
                                 ('/boom', boom), ('/nb', nb), ('/reroute', reroute), ('/stats', create_stats_app()),
                                 ('/<x>', catch), POST('/only/post', ok)], middlewares=mws)
         # the list stays the caller's: a middleware put into it afterwards is not the application's
@@ -275,6 +282,8 @@ class StatsWorld(object):
                 'nf': ('/a/b/c', 'GET', 404, [('/<_ignored*>', '404')]),
                 'mna': ('/only/post', 'GET', 405, [('/<_ignored*>', '405')]),
                 'reroute': ('/reroute', 'GET', 200, [('/reroute', 'RerouteWSGI')]),
+                'raise422': ('/raise422', 'GET', 422, [('/raise422', '422')]),
+                'inner-ok': ('/inner/ok', 'GET', 200, [('/inner/ok', '200')]),
             }[s]
             res = wsgi.call(app, path, method)
             for p, k in counts:
